@@ -829,7 +829,14 @@ func (g *Gen) next(b *ssa.BasicBlock, x *ssa.Next, h Heap) {
 			ks, vs := g.sortOf(mt.Key()), g.sortOf(mt.Elem())
 			if ks != "" && vs != "" && k.S != "" && v.S != "" {
 				md, mv := g.mapDomComp(ks, vs), g.mapValComp(ks, vs)
-				g.S.assert(imp(okv.T, and(not(eq(it.T, "null")), sel(sel(g.hget(h, md), it.T), k.T), eq(v.T, sel(sel(g.hget(h, mv), it.T), k.T)))))
+				cs := []string{not(eq(it.T, "null"))}
+				if !isInvalidType(tup.At(1).Type()) {
+					cs = append(cs, sel(sel(g.hget(h, md), it.T), k.T))
+					if !isInvalidType(tup.At(2).Type()) {
+						cs = append(cs, eq(v.T, sel(sel(g.hget(h, mv), it.T), k.T)))
+					}
+				}
+				g.S.assert(imp(okv.T, and(cs...)))
 			}
 		}
 		g.Assumed["range over map: iteration order nondeterministic, termination assumed (finite map)"] = true
@@ -892,3 +899,9 @@ func uniqueStoredFn(fn *ssa.Function, cell ssa.Value) *ssa.Function {
 }
 
 var _ = strings.TrimSpace
+
+// isInvalidType reports the placeholder type go/ssa gives an unused component of a range tuple.
+func isInvalidType(t types.Type) bool {
+	b, ok := t.(*types.Basic)
+	return ok && b.Kind() == types.Invalid
+}
